@@ -112,9 +112,32 @@ def _execute_guarded(prop, trace, rng):
                 "detail": f"the run burned {limit}s of CPU time without finishing (typical run: milliseconds); "
                           f"last op index: {trace.get('_progress')}",
                 "digest": "hang", "stats": {}, "nontrivial": False}
+    except Exception as e:
+        # an exception that escapes from the package's own code while an oracle looks at one of its objects
+        # (str(), ==, len(), iteration outside a guarded call) is behaviour of the package, not a harness problem
+        if use_alarm and escaped_from_package(e):
+            return {"status": VIOLATION, "oracle": "observation", "klass": f"package-raised-{type(e).__name__}",
+                    "detail": f"{e!r} escaped from {_innermost(e)} while the run was observed; "
+                              f"last op index: {trace.get('_progress')}",
+                    "digest": "raised", "stats": {}, "nontrivial": False}
+        raise
     finally:
         if use_alarm:
             signal.setitimer(signal.ITIMER_PROF, 0)
+
+
+def _innermost(exc):
+    tb, last = exc.__traceback__, None
+    while tb is not None:
+        tb, last = tb.tb_next, tb
+    if last is None:
+        return ""
+    return f"{os.path.abspath(last.tb_frame.f_code.co_filename)}:{last.tb_lineno}"
+
+
+def escaped_from_package(exc):
+    """True when the innermost frame of the exception is code of the package under test"""
+    return _innermost(exc).startswith(os.path.join(AK_REPO, "ak") + os.sep)
 
 
 class Violation(Exception):
